@@ -42,7 +42,7 @@ def cases(tier, seed, shard, nshards):
     n = tier_pick(tier, 30000, 600000) // nshards
     r = rng_for(seed, shard, "c02")
     for i in range(n):
-        opts = grammar.Opts(max_items=r.choice([1, 2, 4, 8]), nest=r.choice([1, 3, 4]))
+        opts = grammar.Opts(max_items=r.choice([1, 2, 4, 8]), nest=r.choice([1, 3, 4]), big=0.01)
         text, truth = grammar.document(r, opts)
         yield {"k": "gen", "text": text, "truth": truth}
 
